@@ -412,17 +412,18 @@ def pick_n(rng, spec, axis, mode):
     if mode == "byid":
         return rng.choice([1, 1, 2, 3, len(totals), len(totals) + 1, max(1, len(totals) - 1)])
     c = rng.random()
-    if not pos:
-        return rng.randint(1, 3)
+    small = [t for t in pos if t <= 300]       # the positions drawn are listed in the request: keep n small
+    if not small:
+        return rng.randint(1, 300) if pos else rng.randint(1, 3)
     if c < 0.35:
-        return rng.choice(pos)
+        return rng.choice(small)
     if c < 0.45:
-        return rng.choice(pos) + 1
+        return rng.choice(small) + 1
     if c < 0.55:
-        return max(1, rng.choice(pos) - 1)
+        return max(1, rng.choice(small) - 1)
     if c < 0.6:
-        return max(pos) + 1
-    return rng.randint(1, min(max(pos), 300))
+        return max(small) + 1
+    return rng.randint(1, max(small))
 
 
 CORPUS = [
